@@ -68,7 +68,7 @@ def select(ds, quick, seed):
     for c in ds:
         by[c["cls"]].append(c)
     cap = {"truncate": 160, "brokenUtf8": 60, "illegalChar": 50, "loneSurrogate": 40, "fffe": 40, "nul": 30, "numberLiteral": 120, "cdataBracket": 80,
-           "numberFormat": 50, "numberValue": 40, "dropTag": 40, "dupTag": 40, "swapTag": 40, "unclosedQuote": 30,
+           "numberFormat": 50, "numberValue": 264, "dropTag": 40, "dupTag": 40, "swapTag": 40, "unclosedQuote": 30,
            "nonExpression": 110}
     out = []
     for cls in sorted(by):
